@@ -506,7 +506,10 @@ c_get_name_int (char *name, OrcCompiler *p, OrcInstruction *insn, int var)
       if (p->vars[var].value.i == (int)p->vars[var].value.i) {
         sprintf(name, "%d", (int)p->vars[var].value.i);
       } else {
-        ORC_ASSERT(0);
+        /* a 64-bit constant as a scalar operand */
+        sprintf(name, "ORC_UINT64_C(0x%08x%08x)",
+            (orc_uint32)(((orc_uint64)p->vars[var].value.i)>>32),
+            ((orc_uint32)p->vars[var].value.i));
       }
     }
   } else {
